@@ -1269,6 +1269,10 @@ def run(rep: Report, ctx: Any) -> str:
     # ---- R01.10 -------------------------------------------------------------------------------------------------------------------------
     _dependants_handed_down(rep, ctx)
     rep.not_decided += ["syntactic validity of the composition of fragments for every document; validity of pyproject.toml beyond its string contexts"]
+    # ---- R01.11 -------------------------------------------------------------------------------------------------------------------------
+    from .glue import check as keyword_glue
+
+    keyword_glue(rep, ctx, "R01.11")
     return LEVEL
 
 
